@@ -441,7 +441,11 @@ func checkC05(c *Ctx) {
 
 	// 4. full width: bombs through the real binary, judged with BigNat arithmetic
 	var bombs []cases.ScanCase
-	type bp struct{ d, b int; leaf string; sz int }
+	type bp struct {
+		d, b int
+		leaf string
+		sz   int
+	}
 	plan := []bp{{12, 2, "file", 10}, {33, 2, "file", 7}, {40, 3, "link", 1}, {21, 10, "sub", 1}, {32, 2, "file", 4000}, {16, 4, "file", 65536}}
 	if !quick(c) {
 		for d := 30; d <= 42; d += 3 {
